@@ -23,7 +23,12 @@ RULE = ("graph cases: every directed graph (self-loops included) on <=3 labelled
         "constructed objects plus one class group added with instantiate=False (shape GI: never constructed, never a "
         "source) at every declaration position, every link sequence of length <=2 (thorough <=3) plus sampled longer ones "
         "that target a parameter of that group at least once - targets that only the final apply_instantiation_links pass "
-        "fills, read back from the returned cfg; histories: in 40% of all link cases the parser is USED (parse_object + "
+        "fills, read back from the returned cfg; whole-argument cases: the same with one WHOLE class-typed argument as link "
+        "target (shape TI: add_argument('--n', type=Optional[Base]); link(src, 'n'); declared required when no use of the "
+        "parser precedes the link) at every declaration position, exactly one link into it (source whole object or an "
+        "attribute holding a marker object or None, compute_fn or not), 30% of them as continued histories; subcommand: in "
+        "25% of all link cases the parser of the case is the subcommand of an outer parser and parse_object / "
+        "instantiate_classes are called on the outer one; histories: in 40% of all link cases the parser is USED (parse_object + "
         "instantiate_classes) after one or two of the link_arguments calls, most often right before the last (possibly "
         "cycle-closing) link, before the remaining links are added; continued histories (cont): any sequence of 2-7 distinct (source, "
         "target object) pairs over every layout with <=3 declarations, cyclic additions anywhere (30 walks per layout "
@@ -57,8 +62,12 @@ ASSUMPTIONS = [
     "the harness checks exactly this on 40% of the link cases)",
     "a caller that goes on after a rejected link catches exactly the ValueError 'Graph has cycles' of link_arguments; any other "
     "exception of link_arguments ends the case",
-    "whole class-typed arguments as link targets (add_argument('--top', type=C); link(..., 'top')) are not modelled: link "
-    "targets are constructor parameters of constructed objects or parameters of a never instantiated group",
+    "a whole class-typed argument that is a link target (shape TI) is given no value of its own, gets at most one link "
+    "(a second link_arguments call on the same target is refused with 'No action for key', not a C16 matter), is never a "
+    "link source, and its type accepts every scratch object, marker, compute_fn result and None (0, '' and False are "
+    "refused by the target's type check: the model raises like the code, the generator does not produce such links)",
+    "running the parser as a subcommand of an outer parser changes nothing (the model has no notion of it; the harness "
+    "checks exactly this on 25% of the link cases)",
     "links whose source and target lie in the same class-typed argument (is_nested_instantiation_link) are handed to the "
     "sub-parser by the code; the model only covers the shape the generator produces (attribute of the component itself as "
     "source: rejected by the sub-parser at instantiation, finding nested-self-link)",
@@ -128,7 +137,7 @@ def graph_cases(rng, tier):
 # link cases
 # ---------------------------------------------------------------------------------------------------------------------
 SHAPES = ["G", "S", "SN", "SNN", "GN", "GNN"]
-NUNITS = {"G": 1, "S": 1, "SN": 2, "SNN": 3, "GN": 2, "GNN": 3, "GI": 1}
+NUNITS = {"G": 1, "S": 1, "SN": 2, "SNN": 3, "GN": 2, "GNN": 3, "GI": 1, "TI": 1}
 
 
 def layout_units(decls):
@@ -137,6 +146,8 @@ def layout_units(decls):
     for n, sh in decls:
         if sh == "GI":      # instantiate=False: a target only (filled by the final pass), never a source
             units.append((n, n + ".", None))
+        elif sh == "TI":    # a whole class-typed argument as link target: the target key is n itself (prefix None)
+            units.append((n, None, None))
         elif sh == "G":
             srcs.append(n)
             units.append((n, n + ".", None))
@@ -244,9 +255,10 @@ def make_case(decls, seq, units, rng):
     links = []
     for k, (s, u) in enumerate(seq):
         # whole object, or an attribute: the marker `at`, or one holding None / 0 / "" / False (an, az, ae, af)
-        attr = rng.choice(ATTRS) if rng.random() < 0.6 else None
-        links.append({"src": [s + "." + attr if attr else s], "tgt": prefix[u] + "l%d" % k, "id": k, "fn": rng.random() < 0.4,
-                      "_u": u, "_s": s})
+        whole = prefix[u] is None       # the whole argument u is the target: its type accepts objects, markers and None only
+        attr = rng.choice(ATTRS[:4] if whole else ATTRS) if rng.random() < 0.6 else None
+        links.append({"src": [s + "." + attr if attr else s], "tgt": u if whole else prefix[u] + "l%d" % k, "id": k,
+                      "fn": rng.random() < 0.4, "_u": u, "_s": s})
     # now and then merge two links with the same target object into one two-source link (needs a compute_fn)
     if len(links) >= 2 and rng.random() < 0.2:
         i, j = sorted(rng.sample(range(len(links)), 2))
@@ -370,6 +382,35 @@ def sink_cases(rng, tier):
     return cases
 
 
+def whole_cases(rng, tier):
+    """Layouts with one WHOLE class-typed argument as link target (shape TI: add_argument('--n', type=Optional[Base]);
+    link(src, 'n')) at every declaration position: link_arguments replaces its action by the link action, it is no
+    component, and the final pass type-checks the value and writes it to cfg['n'].  At most one link per such target."""
+    cases = []
+    for base in all_layouts(2 if tier == "quick" else 3):
+        if len(base) > 3:
+            continue
+        for pos in range(len(base) + 1):
+            shs = [s for _, s in base]
+            shs.insert(pos, "TI")
+            decls = [[LABELS[i], s] for i, s in enumerate(shs)]
+            nu = sum(NUNITS[s] for _, s in decls)
+            if nu <= 3:
+                seqs, units = link_sequences(decls, 2 if tier == "quick" else 3)
+                more, _ = link_sequences(decls, 6, rng, 15 if tier == "quick" else 60)
+                seqs += more
+            else:
+                seqs, units = link_sequences(decls, 6, rng, 150)
+            sink = LABELS[pos]
+            for seq in seqs:
+                if sum(u == sink for _, u in seq) == 1:
+                    c = make_case(decls, seq, units, rng)
+                    if rng.random() < 0.3:
+                        c["cont"] = True
+                    cases.append(c)
+    return cases
+
+
 def cont_cases(rng, tier):
     """Histories that go on after a rejected link: any sequence of distinct (source component, target object) pairs, cyclic
     additions anywhere; the caller catches the ValueError and keeps adding links, then uses the parser."""
@@ -412,11 +453,16 @@ def with_uses(cases, rng):
             c["uses"] = sorted(rng.sample(range(1, n + 1), min(k, n)))
             if c["uses"] == [n] and n > 1 and rng.random() < 0.7:
                 c["uses"] = [n - 1]        # a use right before the last (possibly cycle-closing) link
+        # the parser of the case as a subcommand of an outer parser: everything goes through the recursion of
+        # instantiate_classes into the chosen subcommand; the expectation is the same
+        if rng.random() < 0.25:
+            c["sub"] = True
     return cases
 
 
 def generate(rng, tier):
-    links = link_cases(rng, tier) + prefix_name_cases(rng, tier) + sink_cases(rng, tier) + cont_cases(rng, tier)
+    links = (link_cases(rng, tier) + prefix_name_cases(rng, tier) + sink_cases(rng, tier) + whole_cases(rng, tier)
+             + cont_cases(rng, tier))
     return with_uses(links, rng) + graph_cases(rng, tier)
 
 
@@ -555,6 +601,8 @@ def describe(case, obs):
                 "link_arguments calls in order (apply_on='instantiate')": case["links"],
                 "parser used (parse_object + instantiate_classes) after this many link_arguments calls": case.get("uses", []),
                 "the ValueError of a rejected link is caught and the remaining links are still added": bool(case.get("cont")),
+                "the parser is the subcommand 'run' of an outer parser on which parse_object / instantiate_classes are called":
+                    bool(case.get("sub")),
                 "observed": {k: v for k, v in obs.items() if k in ("outcome", "at", "rejected", "log", "raw_outcome", "msg", "raw_log")}}
     return {"edges_in_insertion_order": case, "DirectedGraph_answer": obs}
 
@@ -562,6 +610,8 @@ def describe(case, obs):
 def shrink(case):
     if is_link(case):
         ls = case["links"]
+        if case.get("sub"):
+            yield {k: v for k, v in case.items() if k != "sub"}
         if case.get("uses"):
             yield {k: v for k, v in case.items() if k != "uses"}
             for u in case["uses"]:
@@ -627,7 +677,11 @@ META = {
                   "rejected at that call); C16_small_space_three_links: the same for every 3-link sequence over the layouts with <=2 "
                   "objects (25,120 cases), both code variants; C16_small_space_final_pass_targets: the same with one class group added "
                   "with instantiate=False at every declaration position (9,000 cases: targets that only the final pass of "
-                  "instantiate_classes fills, read from the returned cfg); C16_accepted_set_acyclic_after_rejections / "
+                  "instantiate_classes fills, read from the returned cfg); C16_small_space_whole_argument_targets (round 6): the "
+                  "same with one WHOLE class-typed argument as link target (link(src, 'n'); its action is replaced by the link "
+                  "action, it is no component, the final pass type-checks and writes the value) at every declaration position "
+                  "of the 21 layouts with <=2 objects, every 1- and 2-link sequence with one link into it (3,976 cases, both "
+                  "variants); C16_accepted_set_acyclic_after_rejections / "
                   "C16_accepted_set_has_order_after_rejections (general: after any history of accepted and rejected "
                   "link_arguments calls the links the parser holds are acyclic and instantiate_classes finds an order) and "
                   "C16_small_space_histories_with_rejections (kernel-evaluated, 25,120 three-link histories, both variants: "
@@ -636,10 +690,11 @@ META = {
                   "C16_source_under_group_refuted, C16_nested_self_link_refuted) = the three findings (two repaired in /repo, nested-self-link open). "
                   "Only exercised by the correspondence (not proved in general): that the values received, the exactly-once "
                   "construction and the compute_fn calls of the model satisfy the spec beyond the small space (longer link "
-                  "sequences, two-source links, four-object nested layouts), and that model = implementation (16.1k cases quick, "
+                  "sequences, two-source links, four-object nested layouts), and that model = implementation (16.4k cases quick, "
                   "~120k thorough: every digraph on <=3 nodes, every loop-free one on 4, all 543 DAGs on four class groups in all "
                   "declaration orders, component names that are string prefixes of one another in all declaration orders, source "
-                  "attributes holding None / 0 / '' / False, two sources from one component, never instantiated target groups, uses of the "
+                  "attributes holding None / 0 / '' / False, two sources from one component, never instantiated target groups, whole "
+                  "class-typed arguments as targets, the parser run as a subcommand of an outer parser, uses of the "
                   "parser interleaved with the link_arguments calls, histories that go on after rejected links).",
     "level_note": "Trusted: Coq kernel/VM; the hand-written models Model/Graph.v and Model/LinkOrder.v outside the enumerated "
                   "cases (in particular the abstraction of a parser to a list of components with dest/kind/units, and of "
@@ -649,6 +704,6 @@ META = {
                   "beyond, and fails exactly in the finding classes 1 and 3. No axioms (Print Assumptions: closed under the "
                   "global context).",
     "technique": "Rocq proofs: DFS invariants (induction on fuel and successor list), build invariant over add_edge, "
-                 "index/pull-position argument for reorder, induction over the link_arguments calls; one vm_compute product over "
-                 "the small space; correspondence of model and real parsers judged inside Coq",
+                 "index/pull-position argument for reorder, induction over the link_arguments calls; six kernel-evaluated products "
+                 "over the small spaces; correspondence of model and real parsers judged inside Coq",
 }
